@@ -347,6 +347,9 @@ impl Check for C03 {
 // ------------------------------------------------------------------------------------------------
 pub struct C11;
 impl Check for C11 {
+    fn fuzz_runs(&self) -> u64 {
+        10000
+    }
     fn id(&self) -> &'static str {
         "C11"
     }
